@@ -41,7 +41,9 @@ def c10_1(ctx):
     domain = [(p, k) for p in range(256) for k in lens]
     defs = df.single_defs(f.node)
     # the coordinate size in bytes: a local with a definition from generator.p().bit_length() (whatever it is without a generator)
-    bc = {n for n, ds in df.assignments(f.node).items() if any(isinstance(v, ast.AST) and ".p().bit_length()" in norm(v) for v, _st in ds)}
+    bc = {n for n, ds in df.assignments(f.node).items() if any(isinstance(v, ast.AST) and ".bit_length()" in norm(v) for v, _st in ds)}
+    if not bc:
+        raise Undecided("sec_to_public_pair: no local holds a coordinate size derived from a bit_length(); this rule reads the (prefix, length) decisions through that local")
 
     def evalf(expr, v):
         p, k = v
@@ -87,7 +89,8 @@ def c10_1(ctx):
     for e in pair_rets:
         ops_e = [o for o in (gi.f_opaques(e.cond) if e.cond not in (True, False) else []) if isinstance(o, str)]
         on_curve = [o for o in ops_e if ".contains_point(" in o]
-        ctx.check(bool(on_curve) and all(sym.entails(gi.f_and(e.cond, ("op", "truthy(%s)" % genp)), ("op", o)) for o in on_curve), "uncompressed-on-curve", ctx.where(f, e.node),
+        with_gen = gi.f_and(e.cond, ("op", "truthy(%s)" % genp), ("not", ("op", "%s.p() is None" % genp)), ("not", ("op", "%s is None" % genp)))
+        ctx.check(bool(on_curve) and all(sym.entails(with_gen, ("op", o)) for o in on_curve), "uncompressed-on-curve", ctx.where(f, e.node),
                   "sec_to_public_pair returns the pair of an uncompressed blob without testing that it lies on the curve: (1, 1) decodes to a `public pair`")
 
     other = [e for e in exits if e.kind not in ("return", "raise")]
@@ -112,7 +115,7 @@ def c10_1(ctx):
         for e in w2.exits:
             if e.kind != "return" or e.node is not e0.node:
                 continue
-            s = sym.may_set(e.cond, U, E, assume={"truthy(%s)" % genp: True})
+            s = sym.may_set(e.cond, U, E, assume={"truthy(%s)" % genp: True, "%s.p() is None" % genp: False, "%s is None" % genp: False})
             want_s = iv(None, ("s", -1))
             ctx.check(s.issubset(want_s), "coordinate-below-p:%s:%s" % (coord, norm(e.value)[:30]), ctx.where(f, e.node),
                       "sec_to_public_pair returns `%s` for %s = `%s` in %s: a coordinate >= p is accepted, so one point has several encodings (and addresses)"
